@@ -32,6 +32,10 @@ pub enum Op {
     DrawImageWithSizeAt(f32, f32, f32, f32, Img, DrawOptions),
     /// draw_text, or draw_glyphs with hand-placed glyphs (only generated when fonts are available)
     Text(TextSpec, SrcSpec, DrawOptions),
+    /// copy_surface (kind 0), blend_surface (1, with the mode) or blend_surface_with_alpha (2, with the alpha)
+    /// from a source surface holding `Img`: source rectangle (min x, min y, max x, max y), destination point.
+    /// Device-space calls that ignore clip, transform and layers (histories only; the scene monitor has no model for them)
+    BlitSurface(u8, Img, (i32, i32, i32, i32), (i32, i32), BlendMode, f32),
     /// not a call: from here on the scene monitor magnifies the real target's user space by 2^e (first op of
     /// a scaled scene; a no-op when applied to a plain target)
     UserScale(i32),
@@ -68,6 +72,11 @@ impl Op {
             Op::DrawImageAt(..) => "draw_image_at",
             Op::DrawImageWithSizeAt(..) => "draw_image_with_size_at",
             Op::UserScale(_) => "user_scale",
+            Op::BlitSurface(k, ..) => match k {
+                0 => "copy_surface",
+                1 => "blend_surface",
+                _ => "blend_surface_with_alpha",
+            },
             Op::Text(t, ..) => {
                 if t.glyphs {
                     "draw_glyphs"
@@ -104,6 +113,16 @@ impl Op {
             }
             Op::Text(t, s, o) => s.with(|src| crate::text::draw(dt, t.font, t.size, &t.text, t.x, t.y, t.glyphs, src, o)),
             Op::UserScale(_) => {}
+            Op::BlitSurface(k, img, r, d, mode, alpha) => {
+                let src = DrawTarget::from_vec(img.w, img.h, img.data.clone());
+                let rect = IntRect::new(IntPoint::new(r.0, r.1), IntPoint::new(r.2, r.3));
+                let dst = IntPoint::new(d.0, d.1);
+                match k {
+                    0 => dt.copy_surface(&src, rect, dst),
+                    1 => dt.blend_surface(&src, rect, dst, *mode),
+                    _ => dt.blend_surface_with_alpha(&src, rect, dst, *alpha),
+                }
+            }
         }
     }
 
@@ -164,6 +183,13 @@ impl Op {
             }
             Op::UserScale(e) => {
                 o.set("exponent", J::Int(*e as i64));
+            }
+            Op::BlitSurface(_, img, r, d, mode, alpha) => {
+                o.set("source_surface", J::s(&format!("{}x{}", img.w, img.h)));
+                o.set("data", pixels_json(&img.data));
+                o.set("src_rect", J::s(&format!("({},{})-({},{})", r.0, r.1, r.2, r.3)));
+                o.set("dst", J::s(&format!("({},{})", d.0, d.1)));
+                o.set("mode_alpha", J::s(&format!("{} {}", mode_name(*mode), fmt_f(*alpha))));
             }
             Op::Text(t, s, d) => {
                 o.set("text", J::s(&format!("{:?} font #{} size {} at {},{}", t.text, t.font, fmt_f(t.size), fmt_f(t.x), fmt_f(t.y))));
@@ -230,7 +256,7 @@ pub fn scaled_twin(op: &Op, k: f32) -> Option<Op> {
         // draw_image_at draws the image at its natural size in user space
         Op::DrawImageAt(x, y, img, o) => Op::DrawImageWithSizeAt(img.w as f32 * f, img.h as f32 * f, x * f, y * f, img.clone(), *o),
         Op::Text(..) => return None,
-        Op::PushClipRect(..) | Op::PopClip | Op::PushLayer(..) | Op::PopLayer | Op::Clear(_) | Op::UserScale(_) => op.clone(),
+        Op::PushClipRect(..) | Op::PopClip | Op::PushLayer(..) | Op::PopLayer | Op::Clear(_) | Op::UserScale(_) | Op::BlitSurface(..) => op.clone(),
     })
 }
 
